@@ -198,6 +198,21 @@ def _dominating_check(fx, node, forms_ne) -> bool:
 def validate_sites(chk, classes=None):
     """R3 for every response consumer (or only those of the named stream classes; used by C12/C13 for the block streams)."""
     repo, folder = ctx(chk)
+    # the refusal itself must be the SDO error: building its message may not be able to raise something else
+    climod = repo.mod(CL, "C07.R3")
+    safe_calls = {"pretty_index", "str", "hex", "len", "repr", "int", "format", "bytes", "binascii.hexlify"}
+    n_r = 0
+    for f_ in list(climod.funcs.values()) + [m_ for c_ in climod.classes.values() for m_ in c_.methods.values()]:
+        if classes is not None and (f_.cls is None or f_.cls.name not in classes):
+            continue
+        for rs in [n for n in own_nodes(f_.node) if isinstance(n, ast.Raise) and isinstance(n.exc, ast.Call) and (dotted(n.exc.func) or "").startswith("Sdo")]:
+            n_r += 1
+            risky = [x for a in list(rs.exc.args) + [k.value for k in rs.exc.keywords] for x in ast.walk(a)
+                     if (isinstance(x, ast.Call) and (dotted(x.func) or "?") not in safe_calls and not (isinstance(x.func, ast.Attribute) and x.func.attr in ("hex", "upper", "lower", "join", "format")))]
+            chk.check(not risky, "R3", f"{f_.key} | `raise {dotted(rs.exc.func)}` cannot fail while building its message", f_.loc(rs),
+                      f"`{src(risky[0])[:60]}` is evaluated to build the error text; if it raises (KeyError from a dictionary lookup, ...) the caller sees that exception instead of the "
+                      f"SDO error, and handlers such as PdoMap.read's `except (KeyError, SdoAbortedError)` swallow it" if risky else "")
+    chk.floor("R3", n_r, 3, "raise sites of SDO errors in the client")
     for fq, scs, sub, mux in SITES:
         if classes is not None and fq.split(".")[0] not in classes:
             continue
